@@ -80,7 +80,7 @@ End Ops.
 
 (* a goal of the model (a term of Goal.v under an environment), as the stream operators see it *)
 Definition model_goal (ds : defs) (uf : term -> term -> subst -> nat) (g : goal) (e : env) : sgoal :=
-  mkSGoal (fun a => eval ds uf g e a) (fun th => TBind th g e) (fun st => TGoal g e st).
+  mkSGoal (fun a => eval ds uf g e a) (fun th => TBind th g e) (fun st => TGoal g e st) g e.
 
 (* Disj (micro/disj.go) and Conj (micro/conj.go): the goal constructors, as functions of their two goals and the state *)
 Section Ctors.
